@@ -163,11 +163,70 @@ def cycle_without(f, header, body, removed):
     return None
 
 
+RADIX_FMT = {'new_lower_hex': 16, 'new_upper_hex': 16, 'new_binary': 2, 'new_octal': 8}
+
+
+def check_print_read(rep, fx):
+    """C16's last sentence is about values; three conditions it cannot hold without are in the shape of the code."""
+    from .c08 import type_of_operand
+    from ..pathq import edge_guards
+    # (a) `{:x}` / `{:b}` / `{:o}` of a signed integer print the two's complement bit pattern (`-1 ^hex print` wrote
+    #     0xffffffffffffffffffffffffffffffff, which no literal denotes): in the printers of cell values they take an unsigned magnitude
+    n_fmt = 0
+    printed = set()
+    for fn in sorted(fx.fns):
+        f = fx.fns[fn]
+        bad = []
+        here = 0
+        for bb, t in f.calls():
+            c = callee_of(t) or ''
+            kind = c.rsplit('::', 1)[-1]
+            if 'fmt::rt::Argument' not in c or kind not in RADIX_FMT:
+                continue
+            ty = type_of_operand(f, t['args'][0]).replace('&', '').replace('mut ', '').strip()
+            if ty not in ('i128', 'u128'):
+                continue            # bytes of a bit-string dump, addresses: not the integers of the language
+            here += 1
+            printed.add(RADIX_FMT[kind])
+            if ty == 'i128':
+                bad.append('%s of %s' % (kind[4:], ty))
+        if not here:
+            continue
+        n_fmt += here
+        rep.add('C16.R3', 'C16.R3:radix-format-of-magnitude:%s' % fn, not bad,
+                '%d radix formats, all of unsigned values' % here if not bad else
+                '%s formats a signed integer in a radix (%s): a negative number is printed as its 128-bit two\'s complement pattern, which the '
+                'lexer does not read back (`-1 ^hex print`)' % (short(fn), ', '.join(sorted(set(bad)))), fn, f.j['span'])
+    rep.floor('C16.R3 radix format arguments of 128-bit integers', n_fmt, 6)
+    # (b) + (c): the integer reader
+    readers = [(fn, bb, t) for fn in sorted(fx.fns) if fn.startswith('lex::') for bb, t in fx.fns[fn].calls()
+               if (callee_of(t) or '').endswith('::from_str_radix')]
+    rep.floor('C16.R3 from_str_radix calls in the lexer', len(readers), 1)
+    read = set()
+    for fn, bb, t in readers:
+        f = fx.fns[fn]
+        for x in expr_walk(f.expr_of_operand(t['args'][1])):
+            if isinstance(x, tuple) and x[0] == 'const' and isinstance(x[1], dict) and isinstance(x[1].get('v'), int):
+                read.add(x[1]['v'])
+        vetted = any('.tmp' in expr_str(e, -30) for (_, e, side) in edge_guards(f, bb))
+        rep.add('C16.R3', 'C16.R3:integer-parser-sign-vetted:%s' % fn, vetted,
+                'a test of the collected digits decides whether from_str_radix sees them' if vetted else
+                '%s hands the collected text to from_str_radix untested: that function accepts a sign of its own, so `0x-5` reads as -5 and '
+                '`0b+1` as 1 instead of being rejected' % short(fn), fn, t.get('at'))
+    missing = sorted(printed - read)
+    rep.add('C16.R3', 'C16.R3:every-printed-radix-has-a-literal', not missing,
+            'radixes printed for integers %s, radixes read %s' % (sorted(printed), sorted(read)) if not missing else
+            'integers are printed in radix %s (`10 ^oct print` writes 0o12) but the lexer has no literal of that radix (it reads %s): the text '
+            'does not read back' % (missing, sorted(read)), 'lex::Lex::next', None)
+
+
 def run(rep, facts, tier):
     fx = facts['dev']
     rep.rule('C16.R1', 'every loop of the lexer makes progress; every token other than EndOfInput consumed at least one character')
     rep.rule('C16.R2', 'the cursor only moves forward by whole characters; start_pos is set once per token; tokens tile')
+    rep.rule('C16.R3', 'what the printer writes the lexer reads, the parts visible in the code: radix formats print a magnitude, every radix printed has a literal form, the integer parser does not get to see a sign of its own')
     tracked = {'lex::Lex': awrite.struct_fields(fx, 'lex::Lex'), 'lex::XstrLines': awrite.struct_fields(fx, 'lex::XstrLines')}
+    check_print_read(rep, fx)
     if not tracked['lex::Lex']:
         raise MissingAnchor('struct lex::Lex')
     W = awrite.all_field_writes(fx, 'lex', tracked)
